@@ -42,8 +42,8 @@ func TestC17(t *testing.T) {
 	r.Assume("gas price 0 and value 0 on judged transactions, so the EVM route has no bank effect of its own")
 	defer r.Finish()
 
-	histories, perHistory := r.N(3, 80), r.N(100, 250)
-	r.MinNontrivial(r.N(150, 8000))
+	histories, perHistory := r.N(12, 80), r.N(120, 250)
+	r.MinNontrivial(r.N(600, 8000))
 	for h := 0; h < histories; h++ {
 		hid := fmt.Sprintf("h%d", h)
 		if !r.Want(hid) {
